@@ -320,28 +320,28 @@ Fixpoint run_mnode (maxiter : nat) (n : nmnode) (ops : list mop) : list Z :=
   end.
 
 (* ---------------- WWTW (Wtw.v) ---------------- *)
-Inductive wop :=
-| WPushCheck (ov : option vqip) | WPushSet (v : vqip) | WCalc | WMake | WPullCheck | WPullSet (q : Q) | WEnd (T : Q)
-| WOverride (p : wparams) (tank_cap : Q).
+Inductive wwop :=
+| WwPushCheck (ov : option vqip) | WwPushSet (v : vqip) | WwCalc | WwMake | WwPullCheck | WwPullSet (q : Q) | WwEnd (T : Q)
+| WwOverride (p : wparams) (tank_cap : Q).
 Definition nwwtw := wwtw (nb * nb).
 Definition enc_wwtw (w : nwwtw) : list Z :=
   ev (ww_cur _ w) ++ ev (ww_treated _ w) ++ ev (ww_liquor _ w) ++ ev (ww_liquor_ _ w) ++ ev (ww_solids _ w)
   ++ enc_tank (ww_tank _ w) ++ enc_star (ww_outs _ w).
-Definition wwtw_step (maxiter : nat) (w : nwwtw) (o : wop) : option (nwwtw * list Z) :=
+Definition wwtw_step (maxiter : nat) (w : nwwtw) (o : wwop) : option (nwwtw * list Z) :=
   match o with
-  | WPushCheck ov => Some (w, ev (ww_push_check _ w ov))
-  | WPushSet v => let '(w', r) := ww_push_set _ w v in Some (w', ev r)
-  | WCalc => Some (ww_calculate_discharge _ w, [])
-  | WMake => match ww_make_discharge _ nbport maxiter w with None => None | Some w' => Some (w', []) end
-  | WPullCheck => Some (w, ev (ww_pull_check _ w))
-  | WPullSet q => let '(w', r) := ww_pull_set _ w q in Some (w', ev r)
-  | WEnd T =>
+  | WwPushCheck ov => Some (w, ev (ww_push_check _ w ov))
+  | WwPushSet v => let '(w', r) := ww_push_set _ w v in Some (w', ev r)
+  | WwCalc => Some (ww_calculate_discharge _ w, [])
+  | WwMake => match ww_make_discharge _ nbport maxiter w with None => None | Some w' => Some (w', []) end
+  | WwPullCheck => Some (w, ev (ww_pull_check _ w))
+  | WwPullSet q => let '(w', r) := ww_pull_set _ w q in Some (w', ev r)
+  | WwEnd T =>
       let w1 := ww_end _ w T in
       Some (mkWW _ (ww_p _ w1) (ww_cur _ w1) (ww_treated _ w1) (ww_liquor _ w1) (ww_liquor_ _ w1) (ww_solids _ w1) (ww_prev _ w1)
                  (ww_tank _ w1) (end_star (ww_outs _ w1)), [])
-  | WOverride p tc => Some (ww_override _ w p tc, [])
+  | WwOverride p tc => Some (ww_override _ w p tc, [])
   end.
-Fixpoint run_wwtw (maxiter : nat) (w : nwwtw) (ops : list wop) : list Z :=
+Fixpoint run_wwtw (maxiter : nat) (w : nwwtw) (ops : list wwop) : list Z :=
   match ops with
   | [] => []
   | o :: r =>
